@@ -342,7 +342,9 @@ fn graph_case(files: &[Vec<u8>], q: Vec<u8>, dag: Option<(&[Cm], &str)>) -> Case
 }
 
 fn mutate_bytes(rng: &mut Rng, f: &mut Vec<u8>) {
-    if f.is_empty() {
+    if f.len() < 8 {
+        // nothing structured left to damage (an earlier mutation truncated the header)
+        f.extend(rng.bytes(3));
         return;
     }
     match rng.below(9) {
